@@ -1179,6 +1179,7 @@ carquet_status_t carquet_read_next_page(
     int16_t* def_levels,
     int16_t* rep_levels,
     int64_t* values_read,
+    int64_t* non_null_read,
     carquet_error_t* error) {
 
     if (!reader || !values || !values_read) {
@@ -1207,11 +1208,28 @@ carquet_status_t carquet_read_next_page(
         to_copy = available;
     }
 
-    /* Copy values from decoded buffers */
+    /* Copy values from decoded buffers.
+     *
+     * Levels are stored one per row, values densely (non-null values only).
+     * The value cursor is therefore the number of non-null rows already
+     * delivered from this page, not the number of rows. */
     size_t value_size = get_value_size(reader->type, reader->type_length);
-    size_t offset = (size_t)reader->page_values_read * value_size;
+    int64_t values_before = reader->page_values_read;
+    int64_t values_to_copy = to_copy;
+    if (reader->max_def_level > 0 && reader->decoded_def_levels) {
+        values_before = carquet_dispatch_count_non_nulls(
+            reader->decoded_def_levels, reader->page_values_read,
+            reader->max_def_level);
+        values_to_copy = carquet_dispatch_count_non_nulls(
+            reader->decoded_def_levels + reader->page_values_read, to_copy,
+            reader->max_def_level);
+    }
+    size_t offset = (size_t)values_before * value_size;
 
-    memcpy(values, (uint8_t*)reader->decoded_values + offset, (size_t)to_copy * value_size);
+    memcpy(values, (uint8_t*)reader->decoded_values + offset, (size_t)values_to_copy * value_size);
+    if (non_null_read) {
+        *non_null_read = values_to_copy;
+    }
 
     if (def_levels) {
         memcpy(def_levels, reader->decoded_def_levels + reader->page_values_read,
